@@ -12,6 +12,7 @@ from ..ref import quat as rq
 PROP = "C10"
 LEVEL = "exploration"
 SHARDS = {"quick": 2, "thorough": 16}
+THOROUGH_DEPTH = 30      # thorough tier = this many times the base thorough budget (VERIF_DEPTH overrides)
 ROUTES = ["rpy/Quaternion", "rpy/QuaternionArray", "rpy/free", "axang/Quaternion", "axang/free", "axang/DCM",
           "explog/versor", "explog/nonversor", "power", "euler/DCM(euler=)", "euler/rot_seq", "euler/DCM(rpy=)",
           "euler/DCM(x,y,z)", "euler/rotation", "DCM.log", "explog/reused object"]
@@ -64,7 +65,7 @@ def generate(rng, tier, shard, nshards):
                "small": lambda: gens.logu(rng, 1e-3, 1e-1), "nearpi": lambda: float(np.pi - gens.logu(rng, 1e-6, 1e-1)),
                "band": lambda: gens.logu(rng, 1e-3, 2e-2), "zero": lambda: 0.0}[reg]()
         yield Case("rot", "rot:" + reg, axis=ax, angle=ang, a=float(rng.uniform(-3, 3)), b=float(rng.uniform(-3, 3)),
-                   scale=gens.logu(rng, 0.1, 10.0))
+                   scale=gens.logu(rng, 0.1, 10.0) if i % 7 else 1.0 + float(rng.choice([-1.0, 1.0])) * gens.logu(rng, 1e-12, 1e-5))   # every 7th: almost unit
     for i in range(n):
         reg = ["euler:generic", "euler:tiny", "euler:degrees"][i % 3]
         k = int(rng.integers(1, 4))
@@ -190,6 +191,15 @@ def check_axang(ctx, ax, th, sc, q, R):
             ctx.le("matrix -> axis-angle returns (axis, angle)", rotvec_err(ax2, th2, ax, th), tol_m, {"via": nm, "axis": ax2, "angle": th2, "true": th}, route=r)
 
 
+def nandiff(x, y):
+    """largest difference, NaN counted as equal to NaN (whether a value may be NaN at all is judged by the round-trip clauses)"""
+    x, y = np.asarray(x, float), np.asarray(y, float)
+    if x.shape != y.shape or not np.array_equal(np.isnan(x), np.isnan(y)):
+        return float("inf")
+    d = np.abs(x - y)
+    return float(np.nanmax(d)) if np.any(~np.isnan(d)) else 0.0
+
+
 def check_explog_pow(ctx, ax, th, sc, a, b, q, R):
     import ahrs
     from ahrs.common.dcm import DCM
@@ -217,7 +227,13 @@ def check_explog_pow(ctx, ax, th, sc, a, b, q, R):
     r = "explog/nonversor"
     qn = q * sc
     out = call(lambda: np.asarray(ahrs.Quaternion(qn.copy(), versor=False).log, float))
-    if ctx.returned(out, route=r) and abs(sc - 1) > 2e-5:
+    if ctx.returned(out, route=r) and abs(sc - 1) <= 2e-5:
+        # almost-unit quaternion kept as given (inside the library's is_versor() tolerance): the rotation part of its logarithm
+        lg = as_real_array(ctx, out.value, (4,), route=r, what="logarithm")
+        if lg is not None:
+            ctx.le("log of an almost-unit quaternion: vector part = u theta/2", np.abs(lg[1:] - ax * th / 2).max(), 1e-7, {"q": qn, "log": lg, "norm-1": sc - 1}, route=r)
+            ctx.le("log of an almost-unit quaternion: scalar part = ln|q| to within the versor tolerance", abs(lg[0] - np.log(sc)), 2.1e-5, route=r)
+    if out.ok and abs(sc - 1) > 2e-5:
         lg = as_real_array(ctx, out.value, (4,), route=r, what="logarithm")
         if lg is not None:
             ctx.le("log(s q) = (ln s, u theta/2)", np.abs(lg - np.r_[np.log(sc), ax * th / 2]).max(), 1e-7, route=r)
@@ -247,9 +263,11 @@ def check_explog_pow(ctx, ax, th, sc, a, b, q, R):
         if not ctx.returned(fresh, route=r):
             continue
         fe, fl, fp = fresh.value
-        ctx.le("every read of exp on one object equals exp of a fresh equal object", max(np.abs(x - fe).max() for x in (e1, e2, e3, e4)), 0.0, {"object": nm, "reads": [e1, e2, e3, e4], "fresh": fe}, route=r)
-        ctx.le("every read of log on one object equals log of a fresh equal object", max(np.abs(x - fl).max() for x in (l1, l2, l3)), 0.0, {"object": nm}, route=r)
-        ctx.le("q**a on an object already read equals q**a of a fresh equal object", max(np.abs(p1_ - fp).max(), np.abs(p2_ - fp).max()), 0.0, {"object": nm}, route=r)
+        ctx.ok("exp and log of a finite quaternion with a non-zero vector part are finite", bool(np.all(np.isfinite(fe)) and np.all(np.isfinite(fl))),
+               {"object": nm, "quaternion": vec, "exp": fe, "log": fl}, route=r)
+        ctx.le("every read of exp on one object equals exp of a fresh equal object", max(nandiff(x, fe) for x in (e1, e2, e3, e4)), 0.0, {"object": nm, "reads": [e1, e2, e3, e4], "fresh": fe}, route=r)
+        ctx.le("every read of log on one object equals log of a fresh equal object", max(nandiff(x, fl) for x in (l1, l2, l3)), 0.0, {"object": nm}, route=r)
+        ctx.le("q**a on an object already read equals q**a of a fresh equal object", max(nandiff(p1_, fp), nandiff(p2_, fp)), 0.0, {"object": nm}, route=r)
         ctx.le("reading exp / log / ** leaves the quaternion unchanged", np.abs(np.array(X, float) - x0).max(), 0.0, {"object": nm, "before": x0, "after": np.array(X, float)}, route=r)
     # --- powers
     r = "power"
